@@ -80,6 +80,13 @@ def Op.single : Op → Bool
   | _ => false
 
 
+/-- The calls a container has to refuse without touching anything: removal of an object that is not
+in it (a point of another contour or one that `reverse()` replaced, a detached object, an object of
+another container), insertion of an anchor / guideline dict whose colour is invalid. -/
+def Op.refused : Op → Bool
+  | .rmAbsentPoint .. | .rmAbsent .. | .rmForeign .. | .insAnchorBad .. | .insGuideBad .. => true
+  | _ => false
+
 /-- F29, first call site: an object is instantiated for a container and never inserted. -/
 def Op.inst : Op → Bool
   | .instAnchor .. | .instGuide .. => true
